@@ -550,4 +550,62 @@ theorem dateStage_sound (cfg : Cfg) (fuel : Nat) (cands : List Str) (tcs : List 
     obtain ⟨r0, hr0, hr1, hr2⟩ := hcov k hk' d.ord hd1 hd2
     exact ⟨c, hcm, d, r0, hr0, hv, hr1, hr2, hinst, hstr⟩
 
+/-! ## completeness of the month-day branch -/
+
+theorem year_mono (a b : Date) (ha : a.valid = true) (hb : b.valid = true) (h : a.ord ≤ b.ord) : a.y ≤ b.y := by
+  by_cases hlt : b.y < a.y
+  · have := ord_lt_of_lexLt b a hb ha (Or.inl hlt)
+    omega
+  · omega
+
+theorem yearsLoop_complete (t : Timex) (c : DateRange) : ∀ (n y : Nat) (out : List Str),
+    yearsLoop t c n y = .ok out → ∀ yy : Nat, y ≤ yy → yy < y + n → ∀ d v,
+      dateFromTimex { t with year := some (.int yy) } = .ok d → c.s ≤ d.ord → d.ord < c.e →
+      formatT { t with year := some (.int yy) } = .ok v → v ∈ out := by
+  intro n
+  induction n with
+  | zero => intro y out h yy h1 h2; omega
+  | succ n ih =>
+    intro y out h yy h1 h2 d v hd hs he hf
+    simp only [yearsLoop, bind, Except.bind] at h
+    cases hr : resolveDefiniteAgainstConstraint { t with year := some (.int y) } c with
+    | error e => simp [hr] at h
+    | ok r =>
+      simp only [hr] at h
+      cases h2' : yearsLoop t c n (y + 1) with
+      | error e => simp [h2'] at h
+      | ok rest =>
+        simp only [h2', pure, Except.pure] at h
+        cases h
+        by_cases hy : yy = y
+        · subst hy
+          unfold resolveDefiniteAgainstConstraint at hr
+          simp only [hd, bind, Except.bind, pure, Except.pure, hs, he, and_self, if_true, hf] at hr
+          cases hr
+          simp
+        · exact List.mem_append.mpr (Or.inr (ih (y + 1) rest h2' yy (by omega) (by omega) d v hd hs he hf))
+
+/-- the month-day branch returns the candidate for **every** year in which the date exists and lies in the range -/
+theorem resolveMonthDay_complete (t : Timex) (c : DateRange) (out : List Str) (hc1 : 1 ≤ c.s) (hc2 : c.e ≤ maxOrd)
+    (hmd : andChainNotNone [t.month, t.dayOfMonth] = true) (h : resolveDateAgainstConstraint t c = .ok out)
+    (yy : Nat) (d : Date) (v : Str) (hd : dateFromTimex { t with year := some (.int yy) } = .ok d) (hdy : d.y = yy)
+    (hs : c.s ≤ d.ord) (he : d.ord < c.e) (hf : formatT { t with year := some (.int yy) } = .ok v) (hv : v ≠ []) :
+    v ∈ out := by
+  have hvd := dateFromTimex_valid _ d hd
+  have o1 := ord_ofOrd c.s hc1 (by omega)
+  have o2 := ord_ofOrd c.e (by omega) hc2
+  have y1 := year_mono (Date.ofOrd c.s) d o1.2 hvd (by rw [o1.1]; exact hs)
+  have y2 := year_mono d (Date.ofOrd c.e) hvd o2.2 (by rw [o2.1]; omega)
+  unfold resolveDateAgainstConstraint at h
+  simp only [hmd, if_true, bind, Except.bind] at h
+  split at h
+  · cases hy : yearsLoop t c ((Date.ofOrd c.e).y + 1 - (Date.ofOrd c.s).y) (Date.ofOrd c.s).y with
+    | error e => simp [hy] at h
+    | ok r =>
+      simp only [hy, pure, Except.pure] at h
+      cases h
+      rw [List.mem_filter]
+      refine ⟨yearsLoop_complete t c _ _ r hy yy (by omega) (by omega) d v hd hs he hf, by simpa using hv⟩
+  · cases h
+
 end RTV.Timex
